@@ -16,7 +16,8 @@ BIN="$OUT/sim"
 if [ -x "$BIN" ]; then echo "$BIN"; exit 0; fi
 mkdir -p "$VERIF/.cache" "$VERIF/bin"
 # keep the cache small: drop other trees' entries
-for d in "$VERIF"/.cache/*; do [ "$d" != "$OUT" ] && [ -d "$d" ] && rm -rf "$d"; done
+# (keep the four most recently used: concurrent checks of other trees may still be running from them)
+ls -1dt "$VERIF"/.cache/*/ 2>/dev/null | tail -n +5 | while read -r d; do [ "${d%/}" != "$OUT" ] && rm -rf "$d"; done
 mkdir -p "$OUT"
 LOCK="$VERIF/.cache/build.lock"
 exec 9>"$LOCK"
@@ -35,6 +36,8 @@ require github.com/anishathalye/porcupine v1.3.0
 EOM
 cat "$VERIF/tools/extra.sum" >> "$SCR/go.sum" 2>/dev/null || true
 FLAGS=""
-[ "$RACE" = 1 ] && FLAGS="-race"
+# race build: the simulator's own packages are compiled without race instrumentation (the baton
+# scheduler orders their accesses; only the code under test is of interest)
+[ "$RACE" = 1 ] && FLAGS="-race -gcflags=github.com/alpacahq/marketstore/v4/zzverif/...=-race=false"
 (cd "$REPO" && go build $FLAGS -overlay "$SCR/ov/overlay.json" -modfile "$SCR/go.mod" -o "$BIN" ./zzverif/cmd/sim) >&2 || { echo "build failed" >&2; exit 2; }
 echo "$BIN"
